@@ -628,6 +628,9 @@ func unop(fr *frame, instr *ssa.UnOp, x value) value {
 			if p == nil {
 				panic(targetPanic{"runtime error: invalid memory address or nil pointer dereference"})
 			}
+			if len(i.guardCells) > 0 {
+				fr.checkGuardCell(p, false)
+			}
 			return load(mustDeref(instr.X.Type()), p)
 		case *symPtr:
 			return i.loadSymPtr(p)
